@@ -703,7 +703,7 @@ func Main(args []string) int {
 	}
 
 	// ---- random reference DAGs
-	ngraphs := r.N(300, 3000)
+	ngraphs := r.N(300, 2500)
 	if v := os.Getenv("C07_GRAPHS"); v != "" {
 		fmt.Sscan(v, &ngraphs)
 	}
@@ -804,7 +804,6 @@ func (m *mon) replay(w Witness, mod *genlab.Module) {
 		m.cycleInProcess(c, true)
 	}
 }
-
 
 // printLineDiff prints lines that occur in only one of the two texts (multiset difference, in order).
 func printLineDiff(a, b []byte, max int) {
